@@ -221,7 +221,7 @@ SYS = st.tuples(st.sampled_from([0, 60, -300, 330, -210, 765, -30, 345]),
 
 
 @st.composite
-def st_cfg(draw, truncated=False):
+def st_cfg(draw, truncated=False, pdf=False):
     xd = draw(st.sampled_from([0, 1, 2, 2, 2, 3, 4]))
     zmode = draw(st.sampled_from(["assumed", "assumed", "unknown", "local"]))
     cfg = {"xd": xd, "only_basic": draw(st.sampled_from([False, False, True])),
@@ -231,7 +231,7 @@ def st_cfg(draw, truncated=False):
            "sys": list(draw(SYS))}
     if truncated:
         cfg["truncated"] = True
-    if draw(st.integers(0, 7)) == 0:
+    if pdf and draw(st.integers(0, 7)) == 0:
         cfg["pdf"] = draw(st.sampled_from(["CCYYMMDDThhmmZ", "CCYY-DDDThh:mm:ss",
                                            "+XCCYY-Www-DThh+hh"]))
     return cfg
@@ -284,7 +284,7 @@ def st_zone_values(draw, form):
 def st_full(draw, force_basic_cfg=None):
     mode = draw(G.MODE_WEIGHTED)
     cm = R.canon(mode)
-    cfg = draw(st_cfg())
+    cfg = draw(st_cfg(pdf=True))
     xd = cfg["xd"]
     notation = "basic" if cfg["only_basic"] else draw(
         st.sampled_from(["basic", "extended"]))
@@ -460,7 +460,7 @@ TRUNC_DATES = [f for f in F.DATE_FORMS if f["type"] == "truncated"]
 def st_trunc(draw):
     mode = draw(G.MODE_WEIGHTED)
     cm = R.canon(mode)
-    cfg = draw(st_cfg(truncated=True))
+    cfg = draw(st_cfg(truncated=True, pdf=True))
     cfg["only_basic"] = False
     dform = None
     props = {}
